@@ -99,7 +99,8 @@ MinOf(s) == IF Len(s) = 1 THEN s[1] ELSE LET m == MinOf(Tail(s)) IN IF s[1] < m 
 MaxOf(s) == IF Len(s) = 1 THEN s[1] ELSE LET m == MaxOf(Tail(s)) IN IF s[1] > m THEN s[1] ELSE m
 RollOp(a, w) ==
     LET s == Valid(Vs(w)) IN
-    IF a = "count" THEN Q(Len(s))
+    \* count: min_periods is measured in rows of the window; the other ops: in valid observations
+    IF a = "count" THEN (IF Len(w) < MinPeriods THEN NaNQ ELSE Q(Len(s)))
     ELSE IF Len(s) < MinPeriods THEN NaNQ
     ELSE CASE a = "sum" -> Q(SumSeq(s))
            [] a = "mean" -> QDiv(SumSeq(s), Len(s))
@@ -334,6 +335,9 @@ Next == (\E b \in RowSeqs : EmitBatch(b)) \/ CutHere
 Spec == Init /\ [][Next]_vars
 
 ----------------------------------------------------------------------------
+\* pandas' one-pass ewm (a list with one value per row) against the closed form
+ResEq2(j, rows) == Len(j) = Len(rows) /\ \A i \in 1 .. Len(j) : QEq(j[i], EwWhole(rows)[i])
+
 \* C06 / C07: after every batch the emitted value is what pandas computes on everything seen so far
 \* (respectively on the rows inside the window), whenever at least one row has been seen
 Matches == (nb > 0 /\ seen # <<>> /\ Family \in {"reduce", "groupby", "window", "wgroupby"}) => ResEq(out, Batch(seen))
